@@ -646,7 +646,12 @@ func irrelevant4(r *ev.Run, id string, v Vec, h handler.Handler4) {
 		if berr != "" {
 			continue
 		}
-		skip := append([]byte{55}, codes...)
+		// the request's own copy of the plugin's option is "another option of the request" too -
+		// except where the property makes it the entitlement (autoconfigure answers option 116)
+		skip := []byte{55}
+		if v.Plugin == "autoconfigure" {
+			skip = append(skip, 116)
+		}
 		for _, x := range pkt.Extra4(skip...) {
 			x := x
 			b := build(&x, mt)
